@@ -109,21 +109,33 @@ def applyHdrOps (ops : String) : Option Resp :=
       | _, _ => none
     | _ => none) {}
 
-def respItem (srv : Bool) (it : String) : String :=
+def updStr (us : List Nat) : String :=
+  if us.isEmpty then "-" else "+".intercalate (us.map toString)
+
+def fieldsStr (fs : List Header) : String :=
+  joinWith "," (fs.map fun f => toHex f.1 ++ ":" ++ toHex f.2)
+
+/-- one item: output token and the encoder-glue state after it -/
+def respItem (srv : Bool) (g : EncGlue) (it : String) : String × EncGlue :=
   let kind := (it.take 1).toString
-  if kind == "C" then "c"
+  let sent (es : String) (fs : List Header) : String × EncGlue :=
+    ("ok:" ++ es ++ ":" ++ updStr g.updates ++ ":" ++ fieldsStr fs, g.sent)
+  if kind == "C" then
+    match ((it.drop 1).toString).toNat? with
+    | some n => ("c", g.settings n)
+    | none => ("bad-op", g)
   else if kind == "F" then
     -- SETTINGS_MAX_FRAME_SIZE outside [2^14, 2^24-1] is a connection error
     match ((it.drop 1).toString).toNat? with
-    | some n => if n < 16384 ∨ n > 16777215 then "f goaway" else "f"
-    | none => "bad-op"
+    | some n => (if n < 16384 ∨ n > 16777215 then "f goaway" else "f", g)
+    | none => ("bad-op", g)
   else if kind == "I" then
     match ((it.drop 1).toString).splitOn "/" with
     | [st, _, ops] =>
       match st.toNat?, applyHdrOps ops with
-      | some st, some r => "ok:0:" ++ joinWith "," ((interimFields st r).map fun f => toHex f.1 ++ ":" ++ toHex f.2)
-      | _, _ => "bad-op"
-    | _ => "bad-op"
+      | some st, some r => sent "0" (interimFields st r)
+      | _, _ => ("bad-op", g)
+    | _ => ("bad-op", g)
   else if kind == "T" then
     match ((it.drop 1).toString).splitOn "/" with
     | [_, _, ops] =>
@@ -136,32 +148,31 @@ def respItem (srv : Bool) (it : String) : String :=
             | _, _ => none
           | _ => none
       match lines with
-      | none => "bad-op"
+      | none => ("bad-op", g)
       | some ls =>
         match trailerFields (ls.flatten ++ [cr, lf]) with
-        | none => "data"
-        | some fs => "ok:1:" ++ joinWith "," (fs.map fun f => toHex f.1 ++ ":" ++ toHex f.2)
-    | _ => "bad-op"
+        | none => ("data", g)
+        | some fs => sent "1" fs
+    | _ => ("bad-op", g)
   else if kind == "R" then
     match ((it.drop 1).toString).splitOn "/" with
     | [st, es, ops] =>
       match st.toNat?, applyHdrOps ops with
       | some st, some r =>
         match respFields st r (if srv then some (ofString "ltv/1.0") else none) with
-        | none => "rst"
-        | some fs => "ok:" ++ (if es == "0" then "0" else "1") ++ ":" ++
-            joinWith "," (fs.map fun f => toHex f.1 ++ ":" ++ toHex f.2)
-      | _, _ => "bad-op"
-    | _ => "bad-op"
-  else "bad-op"
+        | none => ("rst", g)
+        | some fs => sent (if es == "0" then "0" else "1") fs
+      | _, _ => ("bad-op", g)
+    | _ => ("bad-op", g)
+  else ("bad-op", g)
 
 /-- items until a connection error ("goaway" ends the line) -/
-def respRun (srv : Bool) : List String → List String → String
-  | [], acc => " ".intercalate acc.reverse
-  | it :: rest, acc =>
-    let o := respItem srv it
+def respRun (srv : Bool) : EncGlue → List String → List String → String
+  | _, [], acc => " ".intercalate acc.reverse
+  | g, it :: rest, acc =>
+    let (o, g') := respItem srv g it
     if o.endsWith "goaway" || o == "bad-op" then " ".intercalate (acc.reverse ++ [o])
-    else respRun srv rest (o :: acc)
+    else respRun srv g' rest (o :: acc)
 
 def outcomeStr : Outcome → String
   | .new id => "new:" ++ toString id
@@ -248,7 +259,7 @@ def hpackLine : List String → String
       (match huffDecode (b.length + 16) (huffEncode b) with
        | .ok s => if s = b then "1" else "0"
        | .error _ => "0")
-  | "resp" :: srv :: items => respRun (srv == "1") items []
+  | "resp" :: srv :: items => respRun (srv == "1") {} items []
   | "req" :: _maxfield :: items => reqRun 65535 {} items []
   | "enc" :: mx :: cur :: blocks =>
     match mx.toNat?, cur.toNat? with
